@@ -18,7 +18,7 @@ def run(ctx):
         nrec = k + kp + 1
         ctx.add(Harness('C27_crash_k%d_ops%02x_kp%d_pops%02x' % (k, ops, kp, pops), VERIF + '/harness/C27_crash.c',
                         defines=defs + ['K=%d' % k, 'KP=%d' % kp, 'OPS=0x%x' % ops, 'POPS=0x%x' % pops, 'VF_MAXCOPY=8', 'VF_FS_CRASH=1', 'VF_FS_FSIZE=%d' % (16 * nrec)],
-                        unwind=nrec + 2, unwindset=C26.FUS + ['main.0:%d' % (k + 1), 'main.1:%d' % (kp + 1)], flags=['--slice-formula'],
+                        unwind=nrec + 2, unwindset=C26.FUS + ['main.0:%d' % (k + 1), 'main.1:%d' % (kp + 1)],
                         timeout=1200 if ctx.tier == 'quick' else 3600, mem_gb=16, functions=FUN, stubs=STUBS,
                         bounds='process 1: initialise on an empty directory + up to %d operations from op set 0x%02x {bit 0 message put, 1 control put, 2 get}, crash after any completed write/lseek or none; '
                                'process 2: initialise on the frozen files + %d operations from {message put, control put} with a symbolic probe get(1..6) + control get after reopen and after each operation; '
